@@ -12,8 +12,11 @@ func fragJobs(tier string) []*Job {
 		mk("top-core-k2", "VerifFragCore", 2, "every text of <=2 fragments from the reduced alphabet (36 fragments) joined by \"\" or \" \", with/without trailing newline"),
 		mk("ctx-full-k1", "VerifFragCtx", 1, "15 context prefixes (open class/def/block/case/if, typed receivers followed by `.` or `[`) + <=1 fragment from the full alphabet"),
 	}
+	cp := mk("corpus-prefixes", "VerifCorpusPrefix", 0, "the repository's example programs (/repo/test/*.rb with a plain invocation and at most 60 lines; quick tier: a sample of 40 chosen by VERIF_SEED, thorough tier: all): every line-prefix, with/without the final newline, `ti f` and `ti f -i`")
+	cp.Config, cp.Budget = "", 400000000
+	cp.Bound = strings.Replace(cp.Bound, "; configuration: core subset", "; FULL shipped test configuration (the text after this sentence applies to the other jobs); configuration: core subset", 1)
 	if tier == "thorough" {
-		js = append(js,
+		js = append(js, cp, // line-prefixes of real programs run long (unterminated constructs): thorough tier only
 			mk("top-full-k2", "VerifFragTop", 2, "every text of <=2 fragments from the full alphabet joined by \"\" or \" \""),
 			mk("ctx-core-k2", "VerifFragCtxCore", 2, "15 context prefixes + <=2 fragments from the reduced alphabet"),
 		)
